@@ -341,6 +341,78 @@ let cls_mode path =
    with End_of_file -> ());
   close_in ic
 
+(* -merge FILE: the model of the optimizer's terminal-merging pass on the choices mergetool printed
+   (left of "=>"); prints the alternatives left, in mergetool's format *)
+let merge_mode path =
+  let ic = open_in path in
+  let split c s = if s = "" then [] else String.split_on_char c s in
+  let zs s = List.map (fun x -> z_of_int (int_of_string x)) (split ',' s) in
+  let ints l = String.concat "," (List.map (fun z -> string_of_int (int_of_z z)) l) in
+  let hexb (b : n list) = String.concat "" (List.map (fun x -> Printf.sprintf "%02x" (int_of_n x)) b) in
+  let alt_of s =
+    match String.split_on_char ':' s with
+    | ["A"] -> MAny
+    | ["L"; ic; rs] -> MLit (zs rs, ic = "1")
+    | ["C"; ic; inv; cs; rs; ks] ->
+        MCls (zs cs, zs rs, List.map (fun h -> bytes_of_str (unhex ("x" ^ h))) (split ',' ks), ic = "1", inv = "1")
+    | _ -> failwith ("bad alternative " ^ s) in
+  let show = function
+    | MAny -> "A"
+    | MLit (rs, ic) -> Printf.sprintf "L:%d:%s" (if ic then 1 else 0) (ints rs)
+    | MCls (cs, rs, ks, ic, inv) ->
+        Printf.sprintf "C:%d:%d:%s:%s:%s" (if ic then 1 else 0) (if inv then 1 else 0) (ints cs) (ints rs)
+          (String.concat "," (List.map hexb ks)) in
+  (try
+     while true do
+       let line = input_line ic in
+       let lhs =
+         let n = String.length line in
+         let rec find i = if i + 4 > n then n else if String.sub line i 4 = " => " then i else find (i + 1) in
+         String.sub line 0 (find 0) in
+       let alts = List.map alt_of (split ' ' lhs) in
+       let out = String.concat " " (List.map show (optimize_choice alts)) in
+       let n = String.length line and k = String.length lhs in
+       let rhs = if k + 4 <= n then String.sub line (k + 4) (n - k - 4) else out in
+       if rhs = out || (String.length rhs >= 5 && String.sub rhs 0 5 = "PANIC") then print_endline out
+       else begin
+         (* the real optimizer left something else: look for a rune on which its alternatives and the written ones differ.
+            What a choice does on one rune: the alternatives that are not one-rune terminals it tries, in order, before the
+            first one-rune terminal that accepts the rune. *)
+         let real = List.map alt_of (split ' ' rhs) in
+         let lower a = lower_alt ulib a in
+         (* what the choice does on an input (a list of runes): the number of runes the first matching alternative consumes *)
+         let sem l inp =
+           let rec go = function
+             | [] -> -1
+             | a :: rest ->
+                 (match lower a, inp with
+                  | MAny, _ :: _ -> 1
+                  | MAny, [] -> go rest
+                  | MCls (cs, rs, ks, ic, inv), r :: _ -> if class_decide ulib cs rs ks ic inv r then 1 else go rest
+                  | MCls _, [] -> go rest
+                  | MLit (ws, ic), _ ->
+                      let rec pre ws inp = match ws, inp with
+                        | [], _ -> true
+                        | w :: ws', r :: inp' -> int_of_z (if ic then ulib.to_lower r else r) = int_of_z w && pre ws' inp'
+                        | _ :: _, [] -> false in
+                      if pre ws inp then List.length ws else go rest) in
+           go l in
+         let probes =
+           let base = List.concat_map (function
+             | MLit (rs, _) -> rs
+             | MCls (cs, rs, _, _, _) -> cs @ rs
+             | MAny -> []) (alts @ real) in
+           let around z = let i = int_of_z z in [i - 1; i; i + 1; int_of_z (ulib.to_lower z); int_of_z (ulib.to_upper z)] in
+           let runes = List.sort_uniq compare (List.filter (fun i -> i >= 0) (List.concat_map around base @ [0; 48; 65; 97; 127; 128; 233; 955; 8490])) in
+           let lits = List.concat_map (function MLit (rs, _) when List.length rs <> 1 -> [rs; List.map ulib.to_upper rs; List.map ulib.to_lower rs] | _ -> []) (alts @ real) in
+           [] :: List.map (fun i -> [z_of_int i]) runes @ lits in
+         let bad = List.filter (fun inp -> sem alts inp <> sem real inp) probes in
+         Printf.printf "%s\tMISMATCH\t%s\n" out (match bad with [] -> "none" | inp :: _ -> "runes:" ^ ints inp)
+       end
+     done
+   with End_of_file -> ());
+  close_in ic
+
 (* -embed SRC -var NAME: the model of static_code_generator; writes the generated file to stdout and
    reports on stderr whether the theorem's hypothesis holds and the value of the constant's length *)
 let embed_mode path var =
@@ -525,7 +597,7 @@ let bl_mode path =
   close_in ic
 
 let () =
-  let tables = ref "" and cases = ref "" and fuel = ref 4000 and dec = ref "" and bl = ref "" and prep = ref "" and cls = ref "" and emb = ref "" and var = ref "staticCode" and poolf = ref "" and exitf = ref "" and unqf = ref "" in
+  let tables = ref "" and cases = ref "" and fuel = ref 4000 and dec = ref "" and bl = ref "" and prep = ref "" and cls = ref "" and emb = ref "" and var = ref "staticCode" and poolf = ref "" and exitf = ref "" and unqf = ref "" and mergef = ref "" in
   Arg.parse [ ("-tables", Arg.Set_string tables, "unicode tables file");
               ("-cases", Arg.Set_string cases, "case file");
               ("-pq", Arg.String set_pq, "analysis quirks, 2 bits: nullable_inner pred_first (default 01 = current tree: nullable_inner repaired by fix 46465c9)");
@@ -537,6 +609,7 @@ let () =
               ("-embed", Arg.Set_string emb, "source file: print the file static_code_generator writes for it (model)");
               ("-var", Arg.Set_string var, "variable name for -embed");
               ("-bl", Arg.Set_string bl, "file of classes: print Basic-Latin tables of the model");
+              ("-merge", Arg.Set_string mergef, "file of choices (mergetool format): print what the model of the merging pass leaves");
               ("-decode", Arg.Set_string dec, "file of hex strings: print decode results");
               ("-quirks", Arg.String set_quirks, "7 bits: lit_eof stale_ctx recover_scope memo_nocharge memo_label lr_memo_state memo_expected (default 1111111 = faithful)");
               ("-lrspec", Arg.Set lrspec_mode, "evaluate the specification with left-recursive rules read as iterations (Spec.LRIter)");
@@ -550,6 +623,7 @@ let () =
   if !exitf <> "" then (exit_mode !exitf; exit 0);
   if !unqf <> "" then (unq_mode !unqf; exit 0);
   if !tables <> "" then load_tables !tables;
+  if !mergef <> "" then (merge_mode !mergef; exit 0);
   if !bl <> "" then (bl_mode !bl; exit 0);
   if !prep <> "" then (Random.init 7; prep_mode !prep; exit 0);
   if !tables <> "" then load_tables !tables;
